@@ -1019,12 +1019,19 @@ func FromV3RequestBodyFormData(mediaType *openapi3.MediaType) openapi2.Parameter
 			continue
 		}
 		val := schemaRef.Value
-		typ := val.Type
+		typ, format := val.Type, val.Format
 		if val.Format == "binary" {
-			typ = &openapi3.Types{"file"}
+			typ, format = &openapi3.Types{"file"}, ""
 		}
 		required := false
 		for _, name := range val.Required {
+			if name == propName {
+				required = true
+				break
+			}
+		}
+		// ToV3 records the required form fields on the enclosing object schema
+		for _, name := range mediaType.Schema.Value.Required {
 			if name == propName {
 				required = true
 				break
@@ -1054,7 +1061,7 @@ func FromV3RequestBodyFormData(mediaType *openapi3.MediaType) openapi2.Parameter
 			Minimum:      val.Min,
 			Pattern:      val.Pattern,
 			// CollectionFormat: val.CollectionFormat,
-			// Format:          val.Format,
+			Format:          format,
 			AllowEmptyValue: val.AllowEmptyValue,
 			Required:        required,
 			UniqueItems:     val.UniqueItems,
